@@ -87,7 +87,7 @@ def gen_case(rng: random.Random, tier: str) -> dict:
         spec = {"form": "tuple", "parts": parts + [part(2)]}
     else:
         spec = {"form": "keywords", "kw": {"stage1": f"{lhs} ~ {parts[0]}", "stage2": {"a": part(2), "b": parts[-1]}}}
-    return {"efr": rng.random() < 0.7, "cols": cols, "spec": spec, "output": rng.choice(["pandas", "numpy", "sparse"]), "pnull": pnull,
+    return {"mix": rng.choice([None, "last", "first", "all_but_first", "all"]), "efr": rng.random() < 0.7, "cols": cols, "spec": spec, "output": rng.choice(["pandas", "numpy", "sparse"]), "pnull": pnull,
             "enc": sorted(enc.values())}
 
 
@@ -208,6 +208,35 @@ def judge(case) -> Outcome:
                 break
     except Exception as e:  # noqa: BLE001
         out.fail("c07.specs_regenerate", f"{tag}: {type(e).__name__}: {str(e)[:150]}")
+    # a structured spec in which some parts were replaced by fresh (unfitted) specs of the same formulas: on the training data
+    # it still is one joint build - all parts hold the same rows and equal the original parts
+    mix = case.get("mix")
+    if mix and len(sleaves) > 1:
+        from formulaic import ModelSpec, ModelSpecs
+
+        k = [0]
+        nleaves = len(sleaves)
+
+        def swap(sp):
+            i = k[0]
+            k[0] += 1
+            fresh = {"last": i == nleaves - 1, "first": i == 0, "all_but_first": i > 0, "all": True}[mix]
+            return ModelSpec.from_spec(sp.formula, output=sp.output, ensure_full_rank=sp.ensure_full_rank) if fresh else sp
+
+        try:
+            with quiet():
+                mixed = res.model_spec._map(swap, as_type=ModelSpecs)
+                again = mixed.get_model_matrix(df, context={})
+            for (pa_, a), (_, b) in zip(walk(again), rleaves):
+                if dense(a).shape[0] != dense(b).shape[0]:
+                    out.fail("c07.rows_differ", f"{tag}: specs with fresh parts ({mix}): part {pa_} has {dense(a).shape[0]} rows, the joint build {dense(b).shape[0]}")
+                    break
+                if colnames(a) != colnames(b) or not same(dense(a), dense(b)):
+                    out.fail("c07.specs_regenerate", f"{tag}: specs with fresh parts ({mix}): part {pa_} differs from the original result")
+                    break
+            out.see("mixed_specs_checked")
+        except Exception as e:  # noqa: BLE001
+            out.fail("c07.specs_regenerate", f"{tag}: specs with fresh parts ({mix}): {type(e).__name__}: {str(e)[:150]}")
     return out
 
 
